@@ -3,8 +3,13 @@
 // Contracts for package dkv, checked by /verif (govc). Comment-only.
 package dkv
 
+// Abstract value of the database for its clients: the ghost field `live` is the
+// set of keys (by content) whose latest operation is a put. That Put/Delete/
+// ScanPrefix realise it through memtables, WAL and SST levels is C07's claim;
+// clients (keyed state C03, timers C10) rely on it through the `assumes` clauses.
 //@ type DB
 //@   guards mu: sstables
+//@   ghostfield live map[string]bool
 
 // Put/Delete: one new sequence number per operation, the same number goes to
 // the write-ahead log and to the memtable, WAL first.
@@ -12,10 +17,23 @@ package dkv
 //@   property C07 C08
 //@   nowrap
 //@   requires db.wal != nil && db.mtables != nil && db.wal.activeBuffer != nil && db.wal.latestSeqNum <= db.seqNum && !db.wal.sealedFlag
+//@   modifies db.seqNum, db.live, wal.Writer.*, wal.bufferSegment.*, memtable.List.*, memtable.MemTable.*, ziptree.ZipTree.*, ziptree.Node.*
 //@   ensures db.seqNum == old(db.seqNum) + 1
+//@   assumes forall(func(k string) bool { return has(db.live, k) == (has(old(db.live), k) || k == string(key)) })
 
 //@ func DB.Delete
 //@   property C07 C08
 //@   nowrap
 //@   requires db.wal != nil && db.mtables != nil && db.wal.activeBuffer != nil && db.wal.latestSeqNum <= db.seqNum && !db.wal.sealedFlag
+//@   modifies db.seqNum, db.live, wal.Writer.*, wal.bufferSegment.*, memtable.List.*, memtable.MemTable.*, ziptree.ZipTree.*, ziptree.Node.*
 //@   ensures db.seqNum == old(db.seqNum) + 1
+//@   assumes forall(func(k string) bool { return has(db.live, k) == (has(old(db.live), k) && k != string(key)) })
+
+// ScanPrefix: exactly the live keys having the prefix, each once, ascending.
+//@ func DB.ScanPrefix
+//@   property C07 C03 C10
+//@   trusted
+//@   modifies nothing
+//@   ensures forall(0, seqlen(result), func(i int) bool { return seqat(result, i) != nil && has(db.live, string(seqat(result, i).Key())) && hasprefix(seqat(result, i).Key(), prefix) })
+//@   ensures forall(0, seqlen(result), func(i int) bool { return forall(0, i, func(j int) bool { return string(seqat(result, j).Key()) < string(seqat(result, i).Key()) }) })
+//@   ensures forall(func(k string) bool { return has(db.live, k) && hasprefix(k, prefix) ==> exists(0, seqlen(result), func(i int) bool { return string(seqat(result, i).Key()) == k }) })
